@@ -48,7 +48,7 @@ var opqTypes = []opqType{
 		}
 		return opqPtrs[id]
 	}},
-	13: {"*int", true, func(id int) interface{} { var p *int; return p }},                     // typed nil pointer
+	13: {"*int", true, func(id int) interface{} { var p *int; return p }},                                      // typed nil pointer
 	14: {"map[string]interface {}", true, func(id int) interface{} { var m map[string]interface{}; return m }}, // typed nil map: JSON-typed, see note
 	15: {"func()", false, func(id int) interface{} {
 		if opqFuncs[id] == nil {
